@@ -170,6 +170,65 @@ fn modulus_boundary(ctx: &mut Ctx) {
     } }
 }
 
+/// A running Adler-32 of exactly 0 (both halves zero) at a call boundary: 0 is a legitimate value, not
+/// "no checksum yet". Start value 0 and its neighbours directly, and a real prefix P with adler32(P) = 0
+/// (k zero bytes bring the high half where it must be, 256 x 0xFF + 0xF0 bring the low half to 65521)
+/// followed by more data, through the update function, the C wrappers, the compressor (P with a sync
+/// flush, then the rest) and the low-level decoder (output granted up to |P|, then the rest).
+fn zero_state(ctx: &mut Ctx) {
+    use miniz_oxide::deflate::core::{compress, CompressorOxide, TDEFLFlush, create_comp_flags_from_zip_params};
+    use miniz_oxide::inflate::core::{decompress_with_limit, inflate_flags::*, DecompressorOxide};
+    for init in [0u32, 1, 65536, 65537, 0xFFF0_0000, 0x0000_FFF0, 65520, 65520 << 16] {
+        for n in [1usize, 2, 15, 16, 17, 64, 300, 6000] {
+            let piece = ctx.rng.bytes(n);
+            let id = ctx.id();
+            ctx.eval(fnv(&piece) ^ (init as u64) << 8 ^ 0x5a);
+            ctx.count("zero_state_starts");
+            let got = mz_adler32_oxide(init, &piece);
+            ctx.line(&format!("CK id={} kind=adler what=zero_start init={} data={} got={}", id, init, hex(&piece), got));
+            let cgot = unsafe { mz_adler32(init as _, piece.as_ptr(), piece.len()) } as u32;
+            if cgot != got { ctx.violation(id, "c_api", format!("mz_adler32 {} != mz_adler32_oxide {} from start {}", cgot, got, init), format!("CKS in={}", hex(&piece))); }
+        }
+    }
+    // own arithmetic, independent of the crate: find k with adler32(0^k ++ FF^256 ++ F0) = 0
+    let tail: Vec<u8> = { let mut t = vec![0xFFu8; 256]; t.push(0xF0); t };
+    let adler = |k: usize| -> (u64, u64) { let (mut a, mut b) = (1u64, k as u64 % 65521); for &x in &tail { a = (a + x as u64) % 65521; b = (b + a) % 65521; } (a, b) };
+    let k = (0..65521usize).find(|&k| adler(k) == (0, 0)).expect("a prefix with checksum 0 exists");
+    let mut p0 = vec![0u8; k]; p0.extend_from_slice(&tail);
+    for rep in 0..(3 * ctx.scale.max(1)) {
+        let s_len = [1usize, 700, 40000][rep % 3];
+        let suffix = ctx.rng.bytes(s_len);
+        let mut data = p0.clone(); data.extend_from_slice(&suffix);
+        let id = ctx.id();
+        ctx.eval(fnv(&data) ^ 0xa0);
+        ctx.count("zero_state_prefixes");
+        let mid = mz_adler32_oxide(MZ_ADLER32_INIT, &p0);
+        ctx.line(&format!("CK id={} kind=adler what=zero_prefix init=1 data={} got={}", id, hex(&p0), mid));
+        let got = mz_adler32_oxide(mid, &suffix);
+        ctx.line(&format!("CK id={} kind=adler what=zero_cont init=1 data={} got={}", id, hex(&data), got));
+        let cgot = unsafe { let p = mz_adler32(1, data.as_ptr(), p0.len()); mz_adler32(p, data.as_ptr().add(p0.len()), suffix.len()) } as u32;
+        ctx.line(&format!("CK id={} kind=adler what=zero_cont_c init=1 data={} got={}", id, hex(&data), cgot));
+        // compressor: P with a sync flush, then the rest
+        let mut c = CompressorOxide::new(create_comp_flags_from_zip_params((rep % 10) as i32, 15, 0));
+        let mut z = vec![];
+        let mut out = vec![0u8; data.len() + 70000];
+        let (_, _, n1) = compress(&mut c, &p0, &mut out, TDEFLFlush::Sync); z.extend_from_slice(&out[..n1]);
+        ctx.line(&format!("CK id={} kind=adler what=zero_compressor_mid init=1 data={} got={}", id, hex(&p0), c.adler32()));
+        let (_, _, n2) = compress(&mut c, &suffix, &mut out, TDEFLFlush::Finish); z.extend_from_slice(&out[..n2]);
+        ctx.line(&format!("CK id={} kind=adler what=zero_compressor_end init=1 data={} got={}", id, hex(&data), c.adler32()));
+        // decoder: output granted up to |P| on the first call, the rest afterwards
+        let mut r = DecompressorOxide::new();
+        let mut buf = vec![0u8; data.len() + 16];
+        let fl = TINFL_FLAG_PARSE_ZLIB_HEADER | TINFL_FLAG_COMPUTE_ADLER32 | TINFL_FLAG_USING_NON_WRAPPING_OUTPUT_BUF;
+        let (st1, c1, w1) = decompress_with_limit(&mut r, &z, &mut buf, 0, p0.len(), fl);
+        if w1 == p0.len() { if let Some(a) = r.adler32() { ctx.line(&format!("CK id={} kind=adler what=zero_decoder_mid init=1 data={} got={}", id, hex(&p0), a)); } }
+        let (st2, _c2, w2) = decompress_with_limit(&mut r, &z[c1..], &mut buf, w1, usize::MAX, fl);
+        if st2 != miniz_oxide::inflate::TINFLStatus::Done || w1 + w2 != data.len() || buf[..data.len()] != data[..] {
+            ctx.violation(id, "zero_state", format!("zlib stream cut where the running checksum is 0: statuses {:?} / {:?}, {} + {} of {} bytes", st1, st2, w1, w2, data.len()), format!("CKS in={}", hex(&data)));
+        } else if let Some(a) = r.adler32() { ctx.line(&format!("CK id={} kind=adler what=zero_decoder_end init=1 data={} got={}", id, hex(&data), a)); }
+    }
+}
+
 pub fn run(ctx: &mut Ctx) {
     if let Some(lines) = ctx.replay_lines.clone() {
         for l in lines { if let Some(rest) = l.strip_prefix("CKS ") { let kv = crate::kv(rest); let d = crate::tx::unhex(&kv["in"]); one(ctx, &d, "replay"); running(ctx, &d); }
@@ -182,6 +241,7 @@ pub fn run(ctx: &mut Ctx) {
         let f = vec![0xFFu8; n]; one(ctx, &f, "allff");
     }
     modulus_boundary(ctx);
+    zero_state(ctx);
     let big = if ctx.quick() { 300_000 } else { 3_000_000 };
     let f = vec![0xFFu8; big]; one(ctx, &f, "allff_big");
     let d = ctx.rng.bytes(big); one(ctx, &d, "random_big");
